@@ -251,6 +251,87 @@ func init() {
 			}
 		}})
 
+	register(&Rule{ID: "C14.clockstart", Props: []string{"C14"}, Floor: 2,
+		Doc: "the decay clock is restarted by an update exactly when decay was inactive before, with the same notion of `inactive` as the decay hook",
+		Run: func(e *Engine, r *RuleRun) {
+			up := r.Need("keeper.Keeper.UpdateAllianceAsset")
+			hook := r.Need("keeper.Keeper.RewardWeightChangeHook")
+			if up == nil || hook == nil {
+				return
+			}
+			k, fa := FuncKey(up), e.FA(up)
+			// the hook's notion of inactive: edges that skip the step before the due-time test
+			inactive := func(g Guard, recv string) string {
+				if !g.Pos {
+					return ""
+				}
+				c := g.Cond
+				if c.Op == "binop" && c.Name == "==" && c.Args[1].Name == "0" && c.Args[0].String() == recv+".RewardChangeInterval" {
+					return "interval == 0"
+				}
+				if c.IsCall("math.LegacyDec.Equal") && c.Args[0].String() == recv+".RewardChangeRate" && c.Args[1].IsCall("math.LegacyOneDec") {
+					return "rate == 1"
+				}
+				return ""
+			}
+			hfa := e.FA(hook)
+			hookKinds := map[string]bool{}
+			for _, b := range hook.Blocks {
+				for i := range b.Succs {
+					if g, ok := hfa.EdgeFact(b, i); ok {
+						recv := ""
+						if g.Cond.Op == "binop" && len(g.Cond.Args) > 0 {
+							recv = strings.TrimSuffix(g.Cond.Args[0].String(), ".RewardChangeInterval")
+						} else if len(g.Cond.Args) > 0 {
+							recv = strings.TrimSuffix(g.Cond.Args[0].String(), ".RewardChangeRate")
+						}
+						if kind := inactive(g, recv); kind != "" {
+							hookKinds[kind] = true
+						}
+					}
+				}
+			}
+			r.Check(hookKinds["interval == 0"] && hookKinds["rate == 1"], FuncKey(hook), "decay inactive := interval == 0 or rate == 1", "the hook skips assets on exactly these two conditions", "the decay hook no longer skips assets with interval 0 / rate 1", e.Pos(hook.Pos()))
+			// the clock restart in UpdateAllianceAsset
+			var restart *ssa.Store
+			for _, b := range up.Blocks {
+				for _, in := range b.Instrs {
+					if st, ok := in.(*ssa.Store); ok {
+						if f, ok := st.Addr.(*ssa.FieldAddr); ok && typeKey(f.X.Type()) == "types.AllianceAsset" && derefStruct(f.X.Type()).Field(f.Field).Name() == "LastRewardChangeTime" && isBlockTime(fa.Term(st.Val)) {
+							restart = st
+						}
+					}
+				}
+			}
+			if restart == nil {
+				r.Bad(k, "decay clock restart", "no `LastRewardChangeTime = BlockTime` in UpdateAllianceAsset: switching decay on would apply all intervals since the old clock at once", nil, e.Pos(up.Pos()))
+				return
+			}
+			stored := ""
+			for _, c := range CallsTo(up, "keeper.Keeper.GetAssetByDenom") {
+				stored = extractT(fa, c, 0).String()
+			}
+			kinds := map[string]bool{}
+			okAll := true
+			b := restart.Block()
+			for _, p := range b.Preds {
+				found := ""
+				for i, s := range p.Succs {
+					if s == b {
+						if g, ok := fa.EdgeFact(p, i); ok {
+							found = inactive(g, stored)
+						}
+					}
+				}
+				if found == "" {
+					okAll = false
+				} else {
+					kinds[found] = true
+				}
+			}
+			r.Check(okAll && kinds["interval == 0"] && kinds["rate == 1"], k, "clock restarts iff decay was inactive (stored interval == 0 or stored rate == 1)", "the restart is entered exactly through the two `inactive` tests on the stored asset", "the decay clock restart in UpdateAllianceAsset is guarded by another condition than the hook's notion of inactive decay (interval == 0 or rate == 1 of the stored asset): an asset whose clock never ran can keep a stale clock when decay is switched on, and all intervals since then are applied in one step", r.P(restart))
+		}})
+
 	register(&Rule{ID: "C14.range", Props: []string{"C14", "C16"}, Floor: 2,
 		Doc: "UpdateAllianceAsset persists only a weight inside the new range",
 		Run: func(e *Engine, r *RuleRun) {
